@@ -171,6 +171,13 @@ def oracle_consume(d):
     p = []
     h = d["handles"]
     pend = d.get("pending", 0)
+    if d.get("nofin"):
+        # C04: a model with a consuming method whose handles are all dropped without calling it
+        want = ["tick:0:0", "tick:0:1", "add:0:2:5:6"] + (["hold"] + ["tick:9:%d" % i for i in range(pend)] if pend else []) + ["drop"]
+        if d["drops"] != 1 or not d["dropped_in_time"] or d["log_after"] != want:
+            p.append("C04: every handle of an actor with a self-consuming method was dropped (the method never called): actor value dropped %d times (in time: %s), log %s, expected %s"
+                     % (d["drops"], d["dropped_in_time"], d["log_after"], want))
+        return p
     if d.get("dead"):
         # C20: the actor died before the consuming call: the call must fail loudly, it can neither run the method nor make up a refusal
         if d["fin_outcome"] != "panicked" or not closed_msg(d.get("fin_msg")):
